@@ -3929,7 +3929,14 @@ where
               self.add_error(format!("expected type {}, got {:?}", ident, self.cbor));
             }
           }
-          _ => (),
+          _ => {
+            // Any other tag only matches the prelude type defined with it
+            // (e.g. uri = #6.32(tstr))
+            match tag_from_token(&lookup_ident(ident.ident)) {
+              Some(tagged_data_type) => return self.visit_type2(&tagged_data_type),
+              None => self.add_error(format!("expected type {}, got {:?}", ident, self.cbor)),
+            }
+          }
         }
 
         Ok(())
